@@ -28,8 +28,8 @@ from sim.shrink import Shrinker  # noqa: E402
 
 MODULES = {"C17": "sim.c17", "C20": "sim.c20", "C16": "sim.c16"}
 TIERS = {
-    "C17": {"quick": 800, "thorough": 40000},
-    "C20": {"quick": 480, "thorough": 30000},
+    "C17": {"quick": 1200, "thorough": 40000},
+    "C20": {"quick": 560, "thorough": 30000},
     "C16": {"quick": 160, "thorough": 3000},
 }
 WALL_CAP_S = {"quick": 1500, "thorough": 6 * 3600}
